@@ -485,7 +485,7 @@ def run(ctx):
         drv.close()
         ctx.merge_shard(res)
         return
-    n_scripts = ctx.scale(30, 200)
+    n_scripts = ctx.scale(100, 400)
     length = ctx.scale(50, 90)
     run_shards(ctx, shard, [(pid, ctx.tier, ctx.seed, i, n_scripts, length, True) for i in range(16)])
     if ctx.tier == "thorough":
